@@ -8,6 +8,7 @@ import (
 	"fmt"
 	"os"
 	"strconv"
+	"strings"
 	"time"
 
 	"verif/mc/checks"
@@ -90,6 +91,14 @@ func main() {
 		defer func() {
 			if r := recover(); r != nil {
 				if he, ok := r.(core.HarnessError); ok {
+					// A vacuity guard that fires after the wall budget already cut the run short, or after
+					// violations were recorded (a changed library can starve a guard's counter), must not
+					// turn the run into "broken": what was found is reported, the run is marked non-exhaustive.
+					if strings.Contains(string(he), "vacuous") && (ctx.CapsHit() > 0 || ctx.NumViolations() > 0) {
+						fmt.Println("NOTE: vacuity guard not applied (run cut short by its budget, or violations already recorded):", string(he))
+						ctx.CapHit("a vacuity guard fired after a budget cut / after violations: " + string(he))
+						return
+					}
 					fmt.Println("HARNESS-ERROR:", string(he))
 					os.Exit(2)
 				}
